@@ -6,9 +6,11 @@ import (
 	"context"
 	"fmt"
 	"sort"
+	"strings"
 	"testing"
 	"time"
 
+	"github.com/google/go-containerregistry/pkg/name"
 	corev1 "k8s.io/api/core/v1"
 	metav1 "k8s.io/apimachinery/pkg/apis/meta/v1"
 	"k8s.io/apimachinery/pkg/apis/meta/v1/unstructured"
@@ -65,6 +67,8 @@ type world struct {
 	starts map[types.NamespacedName]int
 	nDigest int
 	deletes []gcDelete
+	revDigest map[string]string
+	tagHistory map[string][]string
 }
 
 func (prop) Run(t *testing.T, s *sim.Sim, res *runner.Result) {
@@ -82,8 +86,10 @@ func (prop) Run(t *testing.T, s *sim.Sim, res *runner.Result) {
 	w.reg = simreg.New(s, w.proc)
 	tp := s.Tape
 	w.tags = []string{"v1", "v2", "v3"}
+	w.tagHistory = map[string][]string{}
 	for _, tg := range w.tags {
 		w.reg.TagMap[repo+":"+tg] = simreg.DigestFor(tg)
+		w.tagHistory[repo+":"+tg] = []string{simreg.DigestFor(tg)}
 	}
 	w.nDigest = 3
 	nPkg := 1 + tp.Next(2)
@@ -211,6 +217,7 @@ func (w *world) moveTag(tp *sim.Tape) {
 		// move to the digest another tag has
 		w.reg.TagMap[repo+":"+tg] = w.reg.TagMap[repo+":"+w.tags[tp.Next(len(w.tags))]]
 	}
+	w.tagHistory[repo+":"+tg] = append(w.tagHistory[repo+":"+tg], w.reg.TagMap[repo+":"+tg])
 }
 
 func (w *world) flipHealth(pkg string, tp *sim.Tape) {
@@ -281,6 +288,7 @@ func (w *world) observe() {
 
 // onLog judges every revision delete the manager commits.
 func (w *world) onLog(e *simapi.LogEntry) {
+	w.trackRevisionDigest(e)
 	if e.Actor != "package-manager" || e.Key.Kind != revGVK.Kind || e.Verb != "delete" || e.Injected != "" || e.Err != nil || e.Before == nil {
 		return
 	}
@@ -317,6 +325,77 @@ func (w *world) onLog(e *simapi.LogEntry) {
 	}
 	w.S.Probe("manager-gc-delete")
 	w.deletes = append(w.deletes, gcDelete{e: e, revs: revs, pkg: pkg})
+}
+
+// trackRevisionDigest: a revision stands for one image digest for its whole
+// life; the manager must never point an existing revision at a source that
+// resolves to another digest.
+func (w *world) trackRevisionDigest(e *simapi.LogEntry) {
+	if e.Read || e.Actor != "package-manager" || e.Key.Kind != revGVK.Kind || e.Injected != "" || e.Err != nil || e.After == nil || e.DryRun {
+		return
+	}
+	pkg := (&unstructured.Unstructured{Object: e.After}).GetLabels()[pkgv1.LabelParentPackage]
+	pm := w.Store.Peek(simapi.ObjKey{Group: provGVK.Group, Kind: provGVK.Kind, Name: pkg})
+	if pm == nil {
+		return
+	}
+	if pol, _, _ := unstructured.NestedString(pm, "spec", "packagePullPolicy"); pol == string(corev1.PullNever) {
+		return
+	}
+	img, _, _ := unstructured.NestedString(e.After, "spec", "image")
+	digest := ""
+	for _, h := range w.reg.Heads {
+		if h.TaskID == e.TaskID && h.Digest != "" {
+			digest = h.Digest
+		}
+	}
+	if digest == "" {
+		if ref, err := name.ParseReference(img, name.WithDefaultRegistry("xpkg.example.org")); err == nil {
+			if d, ok := ref.(name.Digest); ok {
+				digest = strings.TrimPrefix(d.DigestStr(), "sha256:")
+			} else {
+				digest = w.reg.TagMap[ref.Name()]
+			}
+		}
+	}
+	if digest == "" {
+		return
+	}
+	if w.revDigest == nil {
+		w.revDigest = map[string]string{}
+	}
+	if e.Before == nil {
+		// learn the digest a revision stands for only from a resolution made by
+		// the reconcile that creates it
+		for _, h := range w.reg.Heads {
+			if h.TaskID == e.TaskID && h.Digest != "" {
+				w.revDigest[e.Key.Name] = h.Digest
+			}
+		}
+		return
+	}
+	old, _, _ := unstructured.NestedString(e.Before, "spec", "image")
+	if old == img {
+		return
+	}
+	headed := false
+	for _, h := range w.reg.Heads {
+		headed = headed || (h.TaskID == e.TaskID && h.Digest != "")
+	}
+	if !headed {
+		// no resolution in this reconcile (pull policy IfNotPresent re-uses what it
+		// resolved earlier): accept any digest the source has ever resolved to
+		if ref, err := name.ParseReference(img, name.WithDefaultRegistry("xpkg.example.org")); err == nil {
+			for _, d := range w.tagHistory[ref.Name()] {
+				if d == w.revDigest[e.Key.Name] {
+					return
+				}
+			}
+		}
+	}
+	if want, ok := w.revDigest[e.Key.Name]; ok && want != digest {
+		w.S.Violate("C14/revision-reused-for-other-digest", fmt.Sprintf("revision %s was created for image digest %s but the manager now gives it source %s, which resolves to %s", e.Key.Name, want[:12], img, digest[:12]))
+	}
 }
 
 type gcDelete struct {
